@@ -29,6 +29,7 @@ func (c13) Gen(r *Rng, tier string, run int) *Trace {
 	s2 := g.addStack(g.kind(), 0)
 	c3 := g.addCond("kw", 1, vStr("ex"))
 	c4 := g.addCond("kw2", 2, vStr("ex2"))
+	c4ref := c4
 	if r.Bool(0.3) {
 		g.emit(Op{Obj: s0, M: "SetNoNesting", Args: []Val{vBool(true)}}, true)
 	}
@@ -46,6 +47,9 @@ func (c13) Gen(r *Rng, tier string, run int) *Trace {
 		case 3:
 			return vRef(s2, r.Intn(nDress))
 		case 4:
+			if r.Bool(0.5) {
+				return vRef(c4ref, r.PickInt(dNative, dAlias, dPtrNative))
+			}
 			return vRef(c3, r.Intn(nDress))
 		case 5:
 			if r.Bool(0.3) {
@@ -81,7 +85,7 @@ func (c13) Gen(r *Rng, tier string, run int) *Trace {
 			g.emit(op, false)
 		case 7, 8:
 			v := val()
-			if v.K == "ref" && int(v.I) == c3 {
+			if v.K == "ref" && (int(v.I) == c3 || int(v.I) == c4) {
 				v = g.plain()
 			}
 			g.emit(Op{Obj: c4, M: "SetExpression", Args: []Val{v}}, false)
